@@ -250,9 +250,10 @@ def convert_dtype(array: Union[pd.Series, pd.Index], col_dtype: Any):
                 tz_match = re.match(r"datetime64\[ns, (.+)\]", str(col_dtype))
                 tz = None if not tz_match else tz_match.group(1)
 
+            # values are UTC instants (see column_strategy/index_strategy)
             if isinstance(array, pd.Index):
-                return array.tz_localize(tz)  # type: ignore [attr-defined]
-            return array.dt.tz_localize(tz)  # type: ignore [union-attr]
+                return array.tz_localize("UTC").tz_convert(tz)  # type: ignore [attr-defined]
+            return array.dt.tz_localize("UTC").dt.tz_convert(tz)  # type: ignore [union-attr]
     return array.astype(col_dtype)
 
 
@@ -914,6 +915,8 @@ def column_strategy(
     """
     verify_dtype(pandera_dtype, schema_type="column", name=name)
     elements = field_element_strategy(pandera_dtype, strategy, checks=checks)
+    if _is_datetime_tz(pandera_dtype):
+        elements = _timestamp_to_datetime64_strategy(elements)
     return pdst.column(
         name=name,
         elements=elements,
@@ -947,6 +950,8 @@ def index_strategy(
     """
     verify_dtype(pandera_dtype, schema_type="index", name=name)
     elements = field_element_strategy(pandera_dtype, strategy, checks=checks)
+    if _is_datetime_tz(pandera_dtype):
+        elements = _timestamp_to_datetime64_strategy(elements)
 
     strategy = pdst.indexes(
         elements=elements,
